@@ -95,22 +95,31 @@ Theorem C02_retired_unmatched : forall s og q c tok r, Inv s -> outgoing s = Som
 Proof. exact retired_unmatched_lemma. Qed.
 Print Assumptions C02_retired_unmatched.
 
-(* ---- conditional liveness: a transport error for remote r fails every still-pending request registered for r,
-   in that very step -- PROVIDED no request to a multicast address is outstanding (no (token, None) key) ... *)
-Theorem C02_transport_error_fails_partial : forall s og r kind tok q c, Inv s -> outgoing s = Some og -> exchanges s <> None ->
-  no_mc_key og -> In ((tok, Some r), q) og -> get_req s q = Some c -> cq_fut c = FPending ->
+(* ---- a transport error for remote r fails, in that very step, every still-pending request registered for r --
+   whatever else is outstanding (entries of multicast requests, keyed (token, None), are skipped: since a3add01
+   `None == <udp6 address>` is False instead of raising); the give-up of a CON exchange is the same dispatch with
+   ConRetransmitsExceeded *)
+Theorem C02_transport_error_fails : forall s og r kind tok q c, Inv s -> outgoing s = Some og -> exchanges s <> None ->
+  In ((tok, Some r), q) og -> get_req s q = Some c -> cq_fut c = FPending ->
   In (SetException q (wrap_error kind)) (snd (mm_dispatch_error s kind r)).
 Proof. exact transport_error_fails_lemma. Qed.
-Print Assumptions C02_transport_error_fails_partial.
-(* ... and without that proviso the statement is FALSE of the code as it is (open finding, fixes/C02-dispatch-error-multicast-key.diff):
-   with a multicast request outstanding, the error for remote 0 raises AttributeError and request 1 stays pending.
-   The check replays this script on the implementation (corpus/C02/finding-multicast-key.json). *)
-Example C02_transport_error_fails_refuted :
+Print Assumptions C02_transport_error_fails.
+Theorem C02_giveup_fails : forall s og r tok q c, Inv s -> outgoing s = Some og ->
+  In ((tok, Some r), q) og -> get_req s q = Some c -> cq_fut c = FPending ->
+  In (SetException q ConRetransmitsExceeded) (snd (tm_dispatch_error s (ENet ConRetransmitsExceeded) r)).
+Proof. exact giveup_fails_lemma. Qed.
+Print Assumptions C02_giveup_fails.
+(* the script of the former finding (corpus/C02/multicast-key-regression.json): with a multicast request outstanding,
+   the error for remote 0 fails request 1 with NetworkError and leaves the multicast request registered; likewise
+   the fifth timer firing fails it with ConRetransmitsExceeded *)
+Example C02_transport_error_with_multicast_pending :
   let r := run (init 5 10 2000000) [Request 0 100 None false; Request 1 0 (Some 0) false; Err 0 EOs] in
-  nth 2 (snd r) [] = [Raised AttributeError] /\
-  (exists c, get_req (fst r) 1 = Some c /\ cq_fut c = FPending) /\
-  (exists og, outgoing (fst r) = Some og /\ In (([7], Some 0), 1) og).
-Proof. vm_compute. split; [reflexivity|]. split; eexists; split; try reflexivity. right. left. reflexivity. Qed.
+  nth 2 (snd r) [] = [SetException 1 NetworkError] /\ outgoing (fst r) = Some [(([6], None), 0)].
+Proof. vm_compute. split; reflexivity. Qed.
+Example C02_giveup_with_multicast_pending :
+  let r := run (init 5 10 2000000) [Request 0 100 None false; Request 1 0 (Some 0) false; Fire; Fire; Fire; Fire; Fire] in
+  nth 6 (snd r) [] = [SetException 1 ConRetransmitsExceeded] /\ outgoing (fst r) = Some [(([6], None), 0)] /\ now (fst r) = 62000000.
+Proof. vm_compute. repeat split; reflexivity. Qed.
 
 (* ---- shutdown fails, in the Shutdown step itself, every registered request whose future is still pending, and
    closes both tables; a request issued afterwards fails at once *)
@@ -134,12 +143,11 @@ Print Assumptions C02_tokens_of_calls_distinct.
 Example C02_nonvacuous_state :
   let s := fst (run (init 5 10 2000000) [Request 0 0 (Some 0) false; Request 1 0 (Some 0) true; Request 2 1 (Some 1) false;
                                           Recv 0 false {| w_mtype := 2; w_code := 69; w_mid := 10; w_token := [6]; w_observe := None; w_rid := 1 |}]) in
-  Inv s /\ (exists og, outgoing s = Some og /\ no_mc_key og /\ In (([7], Some 0), 1) og /\ matching og [7] 0 = Some 1 /\ matching og [6] 0 = None /\ matching og [7] 1 = None) /\
+  Inv s /\ (exists og, outgoing s = Some og /\ In (([7], Some 0), 1) og /\ matching og [7] 0 = Some 1 /\ matching og [6] 0 = None /\ matching og [7] 1 = None) /\
   (exists c, get_req s 0 = Some c /\ retired c) /\ (exists c, get_req s 1 = Some c /\ cq_fut c = FPending) /\ exchanges s <> None.
 Proof.
   split; [apply reachable_inv|]. vm_compute. split.
-  - eexists. split; [reflexivity|]. split; [|split; [left; reflexivity|repeat split]].
-    intros k q [H|[H|[]]]; inversion H; discriminate.
+  - eexists. split; [reflexivity|]. split; [left; reflexivity|repeat split].
   - split; [eexists; split; [reflexivity|right; right; split; [reflexivity|discriminate]]|].
     split; [eexists; split; reflexivity|discriminate].
 Qed.
